@@ -29,7 +29,7 @@ LEVEL_TEXT = (
     "duplicate tokens) for both request headers are sent for each server encode set ({zstd,gzip}, {gzip}, {}) to unary, "
     "protocol-error, producer-init, producer-continuation (pre-compressed path) and exchange responses of the real WSGI "
     "app; coding, announcing header and decoded body are compared with a model written from the spec. Pairs of lists "
-    "up to length 2 are exhaustive in the thorough tier. Held means no mismatch among the responses counted."
+    "up to length 2 are exhaustive in the thorough tier. A history leg sends every request kind offer-less right after every kind that negotiated a coding. Held means no mismatch among the responses counted."
 )
 LEVEL_NOTE = (
     "q-value reordering, the wildcard and the announcing header of a coding offered in both headers are not judged "
